@@ -88,7 +88,7 @@ BackendOf(shape) == CASE shape = "local" -> "local" [] shape = "lsf" -> "lsf" []
 ImageOf(shape) == IF shape \in {"lsf-img1", "k8s-img1"} THEN "img1" ELSE "none"
 
 Comp(own, up, ishape) ==
-    [exe |-> "e1", lit |-> "l1", viaVar |-> FALSE, own |-> own, up |-> up,
+    [exe |-> "e1", exeVia |-> "literal", lit |-> "l1", viaVar |-> FALSE, own |-> own, up |-> up,
      backend |-> BackendOf(ishape), image |-> ImageOf(ishape), res |-> 1, envvar |-> "v1"]
 
 Dummy == Comp(NoFile, NoFile, "local")
@@ -148,6 +148,16 @@ ContentBases == { [World(2, Default.own, Default.up, Default.img, FALSE, Default
                        EXCEPT !.focus = "content", !.c[1].own.content = ko, !.c[1].up.content = ku,
                               !.c[1].own.fname = IF long THEN "g1" ELSE "f1"] :
                     ko \in ContentIds, ku \in ContentIds, long \in BOOLEAN }
+
+(* How the executable is written down: literally, or as "%(tool)s" with the program given by a variable of the        *)
+(* component, a global variable, or a global variable of the active (non-default) platform.  The identity is the      *)
+(* PROGRAM (c.exe), never the spelling.  Executable base worlds: some component of a chain of length <= 2 (read through *)
+(* a file or through the producer's directory) spells its executable through a variable; only the executable aspects   *)
+(* are perturbed (focus "exe").                                                                                        *)
+ExeVias == {"literal", "comp", "global", "platform"}
+ExeBases == { [World(n, Default.own, u, Default.img, FALSE, Default.up2) EXCEPT !.focus = "exe", !.c[k].exeVia = how] :
+                 n \in 1..2, u \in {"pfile-ref", "pdir-ref"}, k \in 1..2, how \in ExeVias \ {"literal"} }
+            \ {w \in {[World(1, Default.own, Default.up, Default.img, FALSE, Default.up2) EXCEPT !.focus = "exe"]} : TRUE}
 
 ---------------------------------------------------------------------------
 (* The abstract identities *)
